@@ -217,6 +217,8 @@ def _simplify_items(t):
     return t
 
 
+_OPERATOR_FUNCS = {"add": "+", "sub": "-", "mul": "*", "matmul": "@", "truediv": "/", "floordiv": "//", "mod": "%", "pow": "**",
+                   "and_": "&", "or_": "|", "xor": "^", "lshift": "<<", "rshift": ">>"}
 _CTOR_FIELDS: dict = {}
 
 
@@ -241,6 +243,34 @@ def _ctor_field_arg(module, cname: str, field: str):
         rebound = {n.id for n in ast.walk(init) if isinstance(n, ast.Name) and isinstance(n.ctx, (ast.Store, ast.Del))}
         if len(stores) == 1 and len(top) == 1 and top[0].value.id not in rebound:
             res = (tuple(params), params.index(top[0].value.id))
+    if res is None and c is not None and init is None and c.base_names:
+        # a Cython extension class: __cinit__ of the class and of each of its bases receives the constructor arguments (called
+        # base first, automatically); with identical parameter lists throughout, the one top-level `self.f = <parameter>` among
+        # them is the field
+        chain, k = [], c
+        while k is not None and len(chain) < 8:
+            chain.append(k)
+            k = module.classes.get(k.base_names[0]) if len(k.base_names) == 1 else None
+        cinits = [k.methods["__cinit__"] for k in chain if "__cinit__" in k.methods]
+        def emulation(f):
+            # the pure-Python stand-in: __init__(self, *args, **kwargs) handing its arguments to every __cinit__ of the MRO
+            return not f.args.args[1:] and f.args.vararg and f.args.kwarg and any(
+                isinstance(n, ast.Constant) and n.value == "__cinit__" for n in ast.walk(f))
+        if cinits and all(emulation(k.methods["__init__"]) for k in chain if "__init__" in k.methods) and "cython.cclass" in c.decorators \
+                and all(not f.args.vararg and not f.args.kwarg and not f.decorator_list for f in cinits):
+            plists = {tuple(a.arg for a in f.args.args[1:]) for f in cinits}
+            if len(plists) == 1:
+                params = list(next(iter(plists)))
+                stores, top, rebound = [], [], set()
+                for f in cinits:
+                    stores += [n for n in ast.walk(f) if isinstance(n, ast.Attribute) and isinstance(n.ctx, ast.Store) and n.attr == field
+                               and isinstance(n.value, ast.Name) and n.value.id == "self"]
+                    top += [st for st in f.body if isinstance(st, ast.Assign) and len(st.targets) == 1 and isinstance(st.targets[0], ast.Attribute)
+                            and st.targets[0].attr == field and isinstance(st.targets[0].value, ast.Name) and st.targets[0].value.id == "self"
+                            and isinstance(st.value, ast.Name) and st.value.id in params]
+                    rebound |= {n.id for n in ast.walk(f) if isinstance(n, ast.Name) and isinstance(n.ctx, (ast.Store, ast.Del))}
+                if len(stores) == 1 and len(top) == 1 and top[0].value.id not in rebound:
+                    res = (tuple(params), params.index(top[0].value.id))
     _CTOR_FIELDS[key] = res
     return res
 
@@ -397,6 +427,7 @@ class Sym:
         self.max_depth = max_depth
         self._memo: Dict[tuple, Term] = {}
         self._busy: set = set()
+        self._rec_pending: set = set()
         self._acc_busy: set = set()
         self.locals = {d.name for ds in self.rd.defs.values() for d in ds}
 
@@ -542,6 +573,10 @@ class Sym:
                     and pos[1][1][:1] in ("'", '"') and "getattr" not in self.locals:
                 at_ = ("attr", pos[0], pos[1][1][1:-1])
                 return at_ if len(pos) == 2 else mk_alt([at_, pos[2]], self.max_alts, "getattr")
+            # operator.add(a, b) is a + b (the functional spelling of the binary operators; the in-place variants are not)
+            if f[:1] == ("attr",) and f[1] == ("glob", "operator") and len(pos) == 2 and not kws and f[2] in _OPERATOR_FUNCS \
+                    and "operator" not in self.locals:
+                return ("op", _OPERATOR_FUNCS[f[2]], pos[0], pos[1])
             # getattr(x, n) with n one of a few literal names (an element of a table of attribute names) is one of x.n
             if f == ("glob", "getattr") and len(pos) == 2 and not kws and pos[1][:1] == ("alt",) and "getattr" not in self.locals \
                     and all(a[:1] == ("const",) and a[1][:1] in ("'", '"') and a[1][1:-1].isidentifier() for a in pos[1][1]):
@@ -749,7 +784,8 @@ class Sym:
         if not cenv and mkey in self._memo:
             return self._memo[mkey]
         if key in self._busy:
-            return ("rec", name)
+            self._rec_pending.add(key)
+            return ("rec", name, at)
         defs: List[Def] = self.rd.reaching(at, name)
         if not defs:
             if name in self.locals:
@@ -780,7 +816,15 @@ class Sym:
                     res = mk_alt([a for a in res[1] if a not in excl] or list(res[1]), self.max_alts, name)
         finally:
             self._busy.discard(key)
-        if not cenv:
+        mine = ("rec", name, at)
+        self._rec_pending.discard(key)
+        if res[:1] == ("alt",) and mine in res[1]:
+            # the name carried round a loop through plain copies (`acc = f(acc)` where f hands its argument back): what it holds
+            # is what it held before, i.e. one of the other alternatives
+            rest = [a for a in res[1] if a != mine]
+            if not any(contains(a, lambda t: t == mine) for a in rest):
+                res = mk_alt(rest, self.max_alts, name)
+        if not cenv and not (self._rec_pending and contains(res, lambda t: t[:1] == ("rec",))):
             self._memo[mkey] = res
         return res
 
